@@ -73,7 +73,7 @@ pub fn roundtrip(ctx: &mut Ctx, e: &Envelope, what: &str, model_bytes: Option<&[
 
 pub fn run(ctx: &mut Ctx) {
     bc_envelope::register_tags();
-    let total = ctx.n(200_000, 4_000_000);
+    let total = ctx.n(200_000, 400_000);
     for case in ctx.cases(total) {
         ctx.begin_case(case);
         let mut rng = ctx.rng(case);
